@@ -991,7 +991,8 @@ def many_names(tier, deep):
     nn = 30000 if (tier == "thorough" or deep) else 3000
     def name_line(i):
         return '{"c":"COMMAND","msg":"Slow query","attr":{"ns":"dbn%d.coln%d","command":{"find":"coln%d","filter":{"fldn%d":1,"sub%d.leaf%d":2},"$db":"dbn%d"},"planSummary":"IXSCAN { fldn%d: 1 }"}}' % (i, i, i, i, i, i, i, i)
-    c = Cfg(w=True, eager=("dbn",))
+    c = Cfg(w=True, eager=("dbn",), enc=(3 if (tier == "thorough" or deep) else 0))
+    c = Cfg(w=True, eager=("dbn",)) if not c.enc else c
     order = list(range(nn)) + list(range(0, 120)) + [nn // 2 + k for k in range(60)]
     ops = [("q%d" % j, ["line", c.s(), hx(name_line(i))]) for j, i in enumerate(order)]
     res = go_exec(ops, timeout=1800)
@@ -1079,7 +1080,15 @@ def oracle_c13_visible(tables, seed, tier, deep):
                 viol.append({"site": "visible:filter-key", "detail": "field %r renamed to %r, expected %r" % (nm, filt.keys(), py_hash_name(rp, nm)), "cfg": c.s(), "cli_flags": c.cli(), "input": cs.text, "output": t})
     mv, mn = many_names(tier, deep)
     viol += mv
-    return viol, len(pairs) + len(plans) + mn
+    # pseudonyms are a function of the name and the replacement text only: also with --encrypt on (whatever the key)
+    for encv in (3, 4):
+        ce = Cfg(w=True, eager=("shop",), enc=encv)
+        le = '{"c":"COMMAND","msg":"Slow query","attr":{"ns":"shop.orders","command":{"find":"orders","filter":{"customer":1},"$db":"shop"}}}'
+        te = out_text(run_lines([(Case(parse_json(le)), ce)])[0])
+        oe = parse_json(te) if te else None
+        if oe is None or get_path(oe, ("attr", "ns")) != py_hash_name("REDACTED", "shop.orders") or get_path(oe, ("attr", "command", "filter")).keys() != [py_hash_name("REDACTED", "customer")]:
+            viol.append({"site": "visible:encrypt-changes-pseudonyms", "detail": "with --encrypt (key #%d) the pseudonyms are not the ones computed from name and replacement text alone" % encv, "cfg": ce.s(), "input": le, "output": te})
+    return viol, len(pairs) + len(plans) + mn + 2
 
 
 def with_visible(fn):
@@ -1488,6 +1497,24 @@ def oracle_c09(tables, seed, tier, deep):
                 dist["roundtrip"] += 1
                 if rc != 0 or not so.endswith(want):
                     viol.append({"site": "roundtrip", "detail": "decrypt of the emitted leaf gave exit %d, stdout tail %r, expected %r" % (rc, so[-80:], want[-80:]), "input": s[:200]})
+            # a value that is ITSELF a ciphertext under the same key (a log that was already redacted once with --encrypt), and the
+            # same inside an explain-wrapped command: decrypt must print exactly the value that was in the log, one layer only
+            inner = [c_ for c_ in cts[:3] if c_]
+            line2 = Obj([("c", "COMMAND"), ("msg", "Slow query"), ("attr", Obj([("ns", "d.c"), ("command", Obj([("explain", Obj([("find", "c"), ("filter", Obj([("g%d" % i, c_) for i, c_ in enumerate(inner)] + [("plain", "zqexplained")]))])), ("verbosity", "queryPlanner")]))]))])
+            inp2b = os.path.join(work, "in2.log")
+            open(inp2b, "w", encoding="utf-8").write(to_json(line2) + "\n")
+            outp2 = os.path.join(work, "out2.log")
+            rc, so, se = run_cli(["redact", inp2b, "-o", outp2, "--encrypt", "--encryptionKeyFile", key], cwd=work)
+            n += 1
+            if rc == 0:
+                f2 = get_path(parse_json(open(outp2, encoding="utf-8").read()), ("attr", "command", "explain", "filter"))
+                for k_, want_ in [("g%d" % i, c_) for i, c_ in enumerate(inner)] + [("plain", "zqexplained")]:
+                    ct2 = f2.get(k_) if isinstance(f2, Obj) else None
+                    rc, so, se = run_cli(["decrypt", ct2 or "", "--decryptionKeyFile", key], cwd=work)
+                    n += 1
+                    dist["roundtrip-nested"] += 1
+                    if rc != 0 or not so.endswith(("Raw value: " + want_ + "\n").encode()):
+                        viol.append({"site": "roundtrip:value-that-is-a-ciphertext" if k_ != "plain" else "roundtrip:explain", "detail": "decrypt gave exit %d, %r; the value in the log was %r" % (rc, so[-90:], want_[:60]), "input": to_json(line2)[:400]})
             # tampering: single-byte corruptions and truncations of ciphertexts, wrong key
             key2 = os.path.join(work, "k2.key")
             open(key2, "w").write(base64.b64encode(bytes(rng.below(256) for _ in range(64))).decode())
@@ -1565,6 +1592,22 @@ def oracle_c10(tables, seed, tier, deep):
     cases = grammar_cases(seed ^ 0x10, n)
     viol = []
     dist = collections.Counter()
+    # one literal in several positions of one line (plain string, under $oid / $date / $binary.base64, in an array, as an e-mail):
+    # equal plaintexts must give equal ciphertexts wherever they stand
+    same = Obj([("c", "COMMAND"), ("msg", "Slow query"), ("attr", Obj([("ns", "d.c"), ("command", Obj([("find", "c"), ("filter", Obj([
+        ("a", "5f0000000000000000000abc"), ("b", Obj([("$oid", "5f0000000000000000000abc")])), ("c", Obj([("$in", ["5f0000000000000000000abc", "2020-01-01T00:00:00Z"])])),
+        ("d", Obj([("$date", "2020-01-01T00:00:00Z")])), ("e", "2020-01-01T00:00:00Z"), ("f", Obj([("$binary", Obj([("base64", "QUJD"), ("subType", "00")]))])), ("g", "QUJD"),
+        ("h", "zq@same.example"), ("i", Obj([("$eq", "zq@same.example")]))]))]))]))])
+    rs = run_lines([(Case(same), Cfg(enc=3))])[0]
+    ts = out_text(rs)
+    if ts:
+        fo = get_path(parse_json(ts), ("attr", "command", "filter"))
+        groups = [[fo.get("a"), get_path(fo, ("b", "$oid")), get_path(fo, ("c", "$in"))[0]], [get_path(fo, ("d", "$date")), fo.get("e"), get_path(fo, ("c", "$in"))[1]],
+                  [get_path(fo, ("f", "$binary", "base64")), fo.get("g")], [fo.get("h"), get_path(fo, ("i", "$eq"))]]
+        for gi, grp in enumerate(groups):
+            if len(set(map(str, grp))) != 1:
+                viol.append({"site": "equal-plaintexts-differ:position", "detail": "one literal in %d positions of one line has %d different ciphertexts: %r" % (len(grp), len(set(map(str, grp))), [str(x)[:30] for x in grp]),
+                             "cfg": Cfg(enc=3).s(), "input": to_json(same), "output": ts})
     flagsets = [dict(), dict(n=True, b=True), dict(w=True, i=True), dict(repl="zz")]
     trip = []
     for i, cs in enumerate(cases):
